@@ -2,8 +2,14 @@
 
 package s3db
 
-import "github.com/jrhy/s3db/kv"
+import (
+	"github.com/jrhy/s3db/kv"
+	"google.golang.org/protobuf/proto"
+)
 
 // verifS3 is a seam for the deterministic simulator (build tag "verif").
 // Without the tag it never supplies a client, so OpenKV behaves as shipped.
 func verifS3(*S3Options) (kv.S3Interface, bool) { return nil, false }
+
+// verifMarshal encodes a node exactly as the shipped code does.
+func verifMarshal(m proto.Message) ([]byte, error) { return proto.Marshal(m) }
